@@ -53,6 +53,7 @@ type Report struct {
 	HarnessErr  string           `json:"harness_error"`
 	WallS       float64          `json:"wall_s"`
 	outcomes    map[string]struct{}
+	visited     map[string]struct{}
 	sigIndex    map[string]int
 }
 
@@ -94,6 +95,7 @@ func Start(t *testing.T, id string) *Run {
 	r.rep.Counters = map[string]int64{}
 	r.rep.Extra = map[string]any{}
 	r.rep.outcomes = map[string]struct{}{}
+	r.rep.visited = map[string]struct{}{}
 	r.rep.sigIndex = map[string]int{}
 	if p := os.Getenv("VERIF_REPLAY"); p != "" {
 		b, err := os.ReadFile(p)
@@ -174,6 +176,16 @@ func (r *Run) Count(name string, n int) {
 // otherwise the run is vacuous and the driver reports a harness error.
 func (r *Run) Require(names ...string) {
 	r.rep.Required = append(r.rep.Required, names...)
+}
+
+// Visit records one observed state of a harness that enumerates histories without a BFS: the number of
+// distinct keys is added to the states count when the run finishes (per shard; shards explore different histories).
+func (r *Run) Visit(key string) {
+	r.mu.Lock()
+	if len(r.rep.visited) < 1<<22 {
+		r.rep.visited[key] = struct{}{}
+	}
+	r.mu.Unlock()
 }
 
 // Outcome records one observed outcome; the number of distinct outcomes is
@@ -267,6 +279,7 @@ func (r *Run) write() {
 	}
 	r.finished = true
 	r.rep.Outcomes = int64(len(r.rep.outcomes))
+	r.rep.States += int64(len(r.rep.visited))
 	r.rep.WallS = time.Since(r.start).Seconds()
 	b, err := json.Marshal(&r.rep)
 	if err != nil {
